@@ -1,4 +1,229 @@
-//! `mac`: not built yet.
-pub fn run_case(_line: &str) -> String {
-    "unimplemented".to_string()
+//! `mac`: the statsd_* macros of cadence-macros on the process-wide default client.
+//! A process can set the global client only once, so every case runs in a fresh child
+//! process (`harness macchild <case line>`).
+//!
+//! case:  M <prefix> <dtags> <dcid> <script> <steps>        (client configuration as in bin `wire`)
+//!   steps = '%'-separated:
+//!     S                                   set_global_default(client built from the configuration)
+//!     Z                                   set_global_default(another client)  -- must be ignored once a client is set
+//!     I|<kind>|<arg>|<key>|<tags>         a macro invocation on the main thread
+//!     T|<kind>|<arg>|<key>|<tags>         the same on a fresh thread
+//!   kind = c ms g m h d s (statsd_count! .. statsd_set!); arg as in bin `wire` (one of the 22 value types);
+//!   tags = comma list <hexkey>:<hexvalue> ("-" = none; 0..5 pairs)
+//!   Every invocation is a statically expanded macro call whose argument expressions log their evaluation.
+//! observation: per invocation  <ret>,<emitted>,<handled>,<evals>  joined by "|"
+//!   ret = unit | panic ; emitted / handled as in bin `wire` ; evals = "~" or '.'-joined k v tk<i> tv<i> in evaluation order
+use crate::util::catch;
+use crate::wire::{build_client, hex0, parse_arg, unhex0, Arg};
+use std::cell::RefCell;
+use std::time::Duration;
+
+struct Ctx {
+    key: &'static str,
+    arg: Arg,
+    tags: Vec<(&'static str, &'static str)>,
+}
+
+thread_local! {
+    static CTX: RefCell<Option<Ctx>> = RefCell::new(None);
+    static EVALS: RefCell<Vec<String>> = RefCell::new(Vec::new());
+}
+
+fn note(s: String) {
+    EVALS.with(|e| e.borrow_mut().push(s));
+}
+
+fn ev_key() -> &'static str {
+    note("k".to_string());
+    CTX.with(|c| c.borrow().as_ref().unwrap().key)
+}
+
+fn ev_tk(i: usize) -> &'static str {
+    note(format!("tk{}", i));
+    CTX.with(|c| c.borrow().as_ref().unwrap().tags[i].0)
+}
+
+fn ev_tv(i: usize) -> &'static str {
+    note(format!("tv{}", i));
+    CTX.with(|c| c.borrow().as_ref().unwrap().tags[i].1)
+}
+
+trait FromArg: Sized {
+    fn from_arg(a: &Arg) -> Self;
+}
+macro_rules! from_arg {
+    ($($t:ty => $v:ident),*) => {$(
+        impl FromArg for $t {
+            fn from_arg(a: &Arg) -> Self {
+                match a { Arg::$v(x) => x.clone(), _ => panic!("argument type mismatch") }
+            }
+        }
+    )*};
+}
+from_arg!(i64 => I64, i32 => I32, u64 => U64, u32 => U32, f64 => F64, Duration => Dur,
+          Vec<u64> => VU64, Vec<f64> => VF64, Vec<Duration> => VDur);
+
+fn ev_val<T: FromArg>() -> T {
+    note("v".to_string());
+    CTX.with(|c| T::from_arg(&c.borrow().as_ref().unwrap().arg))
+}
+
+/// the statically expanded invocations: one per macro, value type and number of tag pairs
+macro_rules! invoke {
+    ($mac:ident, $ty:ty, $n:expr) => {
+        match $n {
+            0 => {
+                cadence_macros::$mac!(ev_key(), ev_val::<$ty>());
+            }
+            1 => {
+                cadence_macros::$mac!(ev_key(), ev_val::<$ty>(), ev_tk(0) => ev_tv(0));
+            }
+            2 => {
+                cadence_macros::$mac!(ev_key(), ev_val::<$ty>(), ev_tk(0) => ev_tv(0), ev_tk(1) => ev_tv(1));
+            }
+            3 => {
+                cadence_macros::$mac!(ev_key(), ev_val::<$ty>(), ev_tk(0) => ev_tv(0), ev_tk(1) => ev_tv(1),
+                                      ev_tk(2) => ev_tv(2));
+            }
+            4 => {
+                cadence_macros::$mac!(ev_key(), ev_val::<$ty>(), ev_tk(0) => ev_tv(0), ev_tk(1) => ev_tv(1),
+                                      ev_tk(2) => ev_tv(2), ev_tk(3) => ev_tv(3));
+            }
+            5 => {
+                cadence_macros::$mac!(ev_key(), ev_val::<$ty>(), ev_tk(0) => ev_tv(0), ev_tk(1) => ev_tv(1),
+                                      ev_tk(2) => ev_tv(2), ev_tk(3) => ev_tv(3), ev_tk(4) => ev_tv(4));
+            }
+            _ => panic!("unsupported number of tag pairs"),
+        }
+    };
+}
+
+/// Returns false when (kind, value type) is not an entry point.
+fn invoke_macro(kind: &str, arg: &Arg, n: usize) -> bool {
+    match (kind, arg) {
+        ("c", Arg::I64(_)) => invoke!(statsd_count, i64, n),
+        ("c", Arg::I32(_)) => invoke!(statsd_count, i32, n),
+        ("c", Arg::U64(_)) => invoke!(statsd_count, u64, n),
+        ("c", Arg::U32(_)) => invoke!(statsd_count, u32, n),
+        ("ms", Arg::U64(_)) => invoke!(statsd_time, u64, n),
+        ("ms", Arg::Dur(_)) => invoke!(statsd_time, Duration, n),
+        ("ms", Arg::VU64(_)) => invoke!(statsd_time, Vec<u64>, n),
+        ("ms", Arg::VDur(_)) => invoke!(statsd_time, Vec<Duration>, n),
+        ("g", Arg::U64(_)) => invoke!(statsd_gauge, u64, n),
+        ("g", Arg::F64(_)) => invoke!(statsd_gauge, f64, n),
+        ("m", Arg::U64(_)) => invoke!(statsd_meter, u64, n),
+        ("h", Arg::U64(_)) => invoke!(statsd_histogram, u64, n),
+        ("h", Arg::F64(_)) => invoke!(statsd_histogram, f64, n),
+        ("h", Arg::Dur(_)) => invoke!(statsd_histogram, Duration, n),
+        ("h", Arg::VU64(_)) => invoke!(statsd_histogram, Vec<u64>, n),
+        ("h", Arg::VF64(_)) => invoke!(statsd_histogram, Vec<f64>, n),
+        ("h", Arg::VDur(_)) => invoke!(statsd_histogram, Vec<Duration>, n),
+        ("d", Arg::U64(_)) => invoke!(statsd_distribution, u64, n),
+        ("d", Arg::F64(_)) => invoke!(statsd_distribution, f64, n),
+        ("d", Arg::VU64(_)) => invoke!(statsd_distribution, Vec<u64>, n),
+        ("d", Arg::VF64(_)) => invoke!(statsd_distribution, Vec<f64>, n),
+        ("s", Arg::I64(_)) => invoke!(statsd_set, i64, n),
+        _ => return false,
+    }
+    true
+}
+
+fn leak(s: String) -> &'static str {
+    Box::leak(s.into_boxed_str())
+}
+
+/// one invocation on the calling thread: (ret, evals)
+fn one(kind: &str, arg: &str, key: &str, tags: &str) -> (String, String) {
+    let arg = parse_arg(arg);
+    let tags: Vec<(&'static str, &'static str)> = if tags == "-" {
+        vec![]
+    } else {
+        tags.split(',')
+            .map(|t| {
+                let (k, v) = t.split_once(':').expect("tag pair");
+                (leak(unhex0(k)), leak(unhex0(v)))
+            })
+            .collect()
+    };
+    let n = tags.len();
+    CTX.with(|c| {
+        *c.borrow_mut() = Some(Ctx {
+            key: leak(unhex0(key)),
+            arg: arg.clone(),
+            tags,
+        })
+    });
+    EVALS.with(|e| e.borrow_mut().clear());
+    let r = catch(|| invoke_macro(kind, &arg, n));
+    let ret = match r {
+        Ok(true) => "unit",
+        Ok(false) => "notype",
+        Err(_) => "panic",
+    };
+    let ev = EVALS.with(|e| e.borrow().join("."));
+    (ret.to_string(), if ev.is_empty() { "~".to_string() } else { ev })
+}
+
+/// runs in the child process
+pub fn child(line: &str) -> String {
+    let t: Vec<&str> = line.split_whitespace().collect();
+    assert!(t[0] == "M", "bad mac case");
+    let built = build_client(t[1], t[2], t[3], t[4]);
+    let log = built.log.clone();
+    let handled = built.handled.clone();
+    let mut client = Some(built.client);
+    let mut out = vec![];
+    for step in t[5].split('%') {
+        let f: Vec<&str> = step.split('|').collect();
+        match f[0] {
+            "S" => {
+                if let Some(c) = client.take() {
+                    cadence_macros::set_global_default(c);
+                }
+            }
+            "Z" => {
+                let other = build_client("7a7a", "-", "~", "-");
+                cadence_macros::set_global_default(other.client);
+            }
+            "I" | "T" => {
+                let before_log = log.lock().unwrap().len();
+                let before_h = handled.lock().unwrap().len();
+                let (ret, ev) = if f[0] == "I" {
+                    one(f[1], f[2], f[3], f[4])
+                } else {
+                    let (a, b, c, d) = (f[1].to_string(), f[2].to_string(), f[3].to_string(), f[4].to_string());
+                    std::thread::spawn(move || one(&a, &b, &c, &d))
+                        .join()
+                        .unwrap_or(("panic".to_string(), "?".to_string()))
+                };
+                let l = log.lock().unwrap();
+                let emitted: Vec<String> = l[before_log..].iter().map(|s| hex0(s.as_bytes())).collect();
+                let h = handled.lock().unwrap();
+                let hd: Vec<String> = h[before_h..].to_vec();
+                out.push(format!(
+                    "{},{},{},{}",
+                    ret,
+                    if emitted.is_empty() { "~".to_string() } else { emitted.join("+") },
+                    if hd.is_empty() { "~".to_string() } else { hd.join("+") },
+                    ev
+                ));
+            }
+            _ => panic!("bad step {}", step),
+        }
+    }
+    out.join("|")
+}
+
+/// runs in the harness: one fresh process per case
+pub fn run_case(line: &str) -> String {
+    let exe = std::env::current_exe().expect("current_exe");
+    let o = std::process::Command::new(exe).arg("macchild").arg(line).output().expect("spawn child");
+    if !o.status.success() {
+        return format!(
+            "CHILD-FAILED {:?} {}",
+            o.status.code(),
+            String::from_utf8_lossy(&o.stderr).replace('\n', " ").chars().take(300).collect::<String>()
+        );
+    }
+    String::from_utf8_lossy(&o.stdout).trim().to_string()
 }
